@@ -660,7 +660,7 @@ type c09extra struct {
 func c09scriptChild(raw json.RawMessage, scratch string) {
 	var ex c09extra
 	a := wk.ParseBatchArg(raw, &ex)
-	r := res.New("C09")
+	r := wk.ChildRes("C09")
 	base := prng.New(a.Seed).Split(0xC09)
 	for i := a.Start; i < a.End; i++ {
 		rng := base.Split(uint64(i))
@@ -848,7 +848,7 @@ func runFree(r *res.R, fc *freeCase, scratch string) {
 func c09freeChild(raw json.RawMessage, scratch string) {
 	var ex c09extra
 	a := wk.ParseBatchArg(raw, &ex)
-	r := res.New("C09")
+	r := wk.ChildRes("C09")
 	base := prng.New(a.Seed).Split(0xF09)
 	for i := a.Start; i < a.End; i++ {
 		rng := base.Split(uint64(i))
